@@ -82,6 +82,8 @@ pub fn main(args: &Args) -> i32 {
     cfgs.push(Cfg { ttl: 1, ..Cfg::default() });
     // "never expire": nothing may be pruned at start-up
     cfgs.push(Cfg { ttl: u64::MAX, ..Cfg::default() });
+    // zero: nothing taken before "now" survives a start-up
+    cfgs.push(Cfg { ttl: 0, ..Cfg::default() });
     let opts = SetupOpts {
         min_members: 2,
         max_members: 4,
